@@ -78,7 +78,17 @@ func scenC24(e *Env) func() {
 		f := c24Files[e.Int(len(c24Files))]
 		l := map[string]int{"a.txt": 100, "empty.txt": 0, "one.txt": 1, "k8191.bin": 8191, "k8192.bin": 8192, "k8193.bin": 8193, "big.txt": 30000, "dir/sub.txt": 300}[f]
 		r := c24Req{File: f, GapMs: Pick(e, 0, 0, 50, 400)}
-		switch Pick(e, "range", "range", "ae", "ims", "plain", "range+ae") {
+		switch Pick(e, "range", "range", "ae", "ims", "plain", "range+ae", "range+ims", "ae+ims", "all") {
+		case "range+ims":
+			r.Range = genRange(e, l)
+			r.IMS = Pick(e, "before", "at", "after", "garbage")
+		case "ae+ims":
+			r.AE = Pick(e, "gzip", "br", "zstd")
+			r.IMS = Pick(e, "before", "at", "after")
+		case "all":
+			r.Range = genRange(e, l)
+			r.AE = Pick(e, "gzip", "br")
+			r.IMS = Pick(e, "before", "at", "after")
 		case "range":
 			r.Range = genRange(e, l)
 		case "ae":
